@@ -575,6 +575,8 @@ pub fn c17_store_records(nd: &mut Nondet) {
             let expiry = match nd.choose("expiry", 4) { 0 => None, 1 => Some(-10i64), 2 => Some(100), _ => Some(200) };
             let mut record = Record::new(rkey, nd.blob(len));
             record.expires = expiry.map(|s| if s < 0 { now - Duration::from_secs((-s) as u64) } else { now + Duration::from_secs(s as u64) });
+            // who published it plays no role in what the store keeps
+            if nd.bool("has_publisher") { record.publisher = Some(nd.peer_id_fixed(7)); }
             store.put(record);
             // reference semantics
             if len < max_size {
@@ -1053,7 +1055,10 @@ pub fn c05_manager_loop(nd: &mut Nondet) {
                     tries[k].stage = 1;
                 } else {
                     cover("c05l.open.failed");
-                    world.queue.push_back(ScriptedEvent::OpenFailure { connection_id: tries[k].id, addresses: tries[k].addresses.clone() });
+                    // the transports report the addresses that failed; when their overall deadline fires before any single
+                    // address attempt has finished the list is empty
+                    let addresses = if nd.bool("open_failure_lists_addresses") { tries[k].addresses.clone() } else { cover("c05l.open.failed-without-errors"); Vec::new() };
+                    world.queue.push_back(ScriptedEvent::OpenFailure { connection_id: tries[k].id, addresses });
                     tries[k].stage = 2;
                 }
             }
@@ -1154,7 +1159,7 @@ pub fn c05_manager_loop(nd: &mut Nondet) {
                     match tries.iter_mut().find(|t| t.id == connection_id) {
                         None => { check("c05l.failure-report-belongs-to-an-attempt", false); return; }
                         Some(t) => {
-                            check("c05l.open-failure-names-the-dialed-addresses", !addresses.is_empty() && addresses.iter().all(|a| t.addresses.contains(a)));
+                            check("c05l.open-failure-names-only-dialed-addresses", addresses.iter().all(|a| t.addresses.contains(a)));
                             check("c05l.no-duplicate-failure-report", t.failures == 0);
                             check("c05l.never-both-failure-and-connection-for-one-attempt", !t.announced);
                             check("c05l.failure-report-only-after-the-transport-gave-up", t.stage == 2);
@@ -3675,4 +3680,105 @@ pub fn c20_send_response(nd: &mut Nondet) {
     }
     if !blocks.is_empty() && !presences.is_empty() { cover("c20s.mixed"); }
     cover("c20s.sent");
+}
+
+// ------------------------------------------------------------------------------------------ C13 requests with an open substream
+/// C13 (requests in flight): requests whose substream was opened run as futures (write the request, wait for the
+/// response, a cancel or the timer); connection loss, cancellation, carrier failures, replies and remote closes may
+/// arrive in any order. Every accepted request gets at most one outcome, and an outcome only for a reason.
+pub fn c13_request_flight(nd: &mut Nondet) {
+    let mut manager = TransportManagerBuilder::new().build();
+    hooks::register_scripted_tcp(&mut manager, Box::new(move |_call: TransportCall| true));
+    let peer = nd.peer_id_fixed(1);
+    hooks::add_address(&mut manager, peer, peer_address(0, peer), 0);
+    let mut kernel = rr::new_kernel(&mut manager, None);
+    let mut connection: Option<ConnectionId> = Some(ConnectionId::from(0usize));
+    check("c13f.connection-is-handled", rr::connection_established(&mut kernel, peer, ConnectionId::from(0usize)));
+    let mut next_connection = 1usize;
+    let mut accepted: Vec<RequestId> = Vec::new();
+    for _ in 0..2 {
+        match rr::send_request(&mut kernel, peer, false) { Some(id) => accepted.push(id), None => { check("c13f.connected-peer-accepts-requests", false); return; } }
+    }
+    let mut settled: Vec<RequestId> = Vec::new();
+    let mut cancelled: Vec<RequestId> = Vec::new();
+    let mut opened = 0usize;
+    let mut replies = 0usize;          // substreams whose remote answers
+    let mut failures_expected = 0usize; // substreams whose carrier fails or whose remote closes
+    let steps = param("steps", 4);
+    for _ in 0..steps {
+        match nd.choose("event", 5) {
+            0 => {
+                // the connection task opened the next requested substream; the remote behind it replies, stays idle or closes,
+                // the carrier may fail while the request is written
+                let remote = nd.choose("remote", 3);
+                let fail_at = nd.choose("carrier_fails_at_write", 3) as usize;
+                let incoming: Vec<u8> = if remote == 2 { vec![2, 0xC1, 0xC2] } else { Vec::new() };
+                let mut io = ScriptedIo::new(nd, incoming);
+                io.idle_at_end = remote == 0;
+                io.fail_write_at = if fail_at == 0 { None } else { Some(fail_at) };
+                let substream = Substream::new_verif(peer, SubstreamId::from(100 + opened), Box::new(io), ProtocolCodec::UnsignedVarint(Some(1024)));
+                match rr::substream_opened(&mut kernel, peer, substream) {
+                    None => assume(false),
+                    Some(ok) => { check("c13f.opened-substream-is-handled", ok); opened += 1; cover("c13f.opened"); }
+                }
+                if fail_at != 0 || remote == 1 { failures_expected += 1; } else if remote == 2 { replies += 1; }
+            }
+            1 => {
+                let handled = rr::poll_requests(&mut kernel);
+                if handled > 0 { cover("c13f.request-future-finished"); }
+            }
+            2 => {
+                match connection.take() { Some(id) => { rr::connection_closed(&mut kernel, peer, id); cover("c13f.disconnected"); } None => assume(false) }
+            }
+            3 => {
+                if connection.is_some() { assume(false); }
+                let id = ConnectionId::from(next_connection);
+                next_connection += 1;
+                check("c13f.connection-is-handled", rr::connection_established(&mut kernel, peer, id));
+                connection = Some(id);
+                cover("c13f.reconnected");
+            }
+            _ => {
+                // the user cancels one of its requests (only while no reply is on its way: the request future picks one of
+                // several ready branches at random, which a replay could not reproduce)
+                if replies > 0 { assume(false); }
+                let k = nd.choose("cancel_which", 2) as usize;
+                if cancelled.contains(&accepted[k]) { assume(false); }
+                rr::cancel_request(&mut kernel, accepted[k]);
+                cancelled.push(accepted[k]);
+                cover("c13f.cancel");
+            }
+        }
+        for outcome in rr::drain_outcomes(&mut kernel) {
+            match outcome {
+                rr::Outcome::Failed(id) => {
+                    cover("c13f.failed");
+                    check("c13f.outcome-belongs-to-an-accepted-request", accepted.contains(&id));
+                    check("c13f.at-most-one-terminal-outcome-per-request", !settled.contains(&id));
+                    settled.push(id);
+                }
+                rr::Outcome::Response(id) => {
+                    cover("c13f.response");
+                    check("c13f.outcome-belongs-to-an-accepted-request", accepted.contains(&id));
+                    check("c13f.at-most-one-terminal-outcome-per-request", !settled.contains(&id));
+                    check("c13f.response-only-if-a-remote-replied", replies > 0);
+                    settled.push(id);
+                }
+                rr::Outcome::Inbound(_) => check("c13f.no-inbound-request-in-this-scenario", false),
+            }
+        }
+        for id in accepted.iter() {
+            let (in_dials, in_outbound, active) = rr::tracked(&kernel, *id);
+            if settled.contains(id) {
+                check("c13f.settled-request-is-forgotten", !in_dials && !in_outbound && !active);
+            } else if cancelled.contains(id) && !(in_dials || in_outbound || active) {
+                // a request the user cancelled ends without an event (the user's handle already dropped it): that is its outcome
+                cover("c13f.cancelled-silently");
+                settled.push(*id);
+            } else {
+                check("c13f.unsettled-request-is-still-tracked", in_dials || in_outbound || active);
+            }
+        }
+        let _ = failures_expected;
+    }
 }
